@@ -24,8 +24,19 @@ for d in sorted(glob.glob(os.path.join(ROOT, "seeded", "*", "meta.json"))):
     rows.append("| %s | %s | %s | %s | %s |" % (sid, m.get("breaks_property", m.get("property")), (m.get("title", "") + ": " + m.get("needs", ""))[:260].replace("|", "/").replace("\n", " "),
                                              m.get("verif_status", ""), m.get("detected_by", "")[:120].replace("|", "/")))
 inject("seeded-table", "\n".join(rows) + "\n")
-ft = os.path.join(ROOT, "props", "findings_table.md")
-if os.path.exists(ft):
-    inject("findings-table", open(ft).read().strip() + "\n")
+kf = json.load(open(os.path.join(ROOT, "known_findings.json")))
+def one(t):
+    t = " ".join(str(t).split()).replace("|", "/")
+    return t if len(t) <= 170 else t[:167] + "..."
+frows = ["| id | property | status | what | deviation model(s) in the spec |", "|---|---|---|---|---|"]
+for f in sorted(kf["findings"], key=lambda f: (f["property"], f["id"])):
+    dev = f.get("spec_deviations") or f.get("deviation") or f.get("dev") or ""
+    dev = ", ".join(dev) if isinstance(dev, list) else str(dev)
+    frows.append("| %s | %s | open | %s | %s |" % (f["id"], f["property"], one(f.get("what", "")), one(dev)[:90]))
+for t in sorted(kf["fixed"], key=lambda t: t.split()[1]):
+    m = re.match(r"fixed: property=(\S+) (\S+) (F-\S+)? ?(.*)", t)
+    if m:
+        frows.append("| %s | %s | fixed %s | %s | |" % (m.group(3) or "-", m.group(1), m.group(2), one(m.group(4))))
+inject("findings-table", "\n".join(frows) + "\n")
 open(p, "w").write(s)
 print("DESIGN.md updated")
